@@ -816,7 +816,8 @@ def main():
 
     # ---------------- C. table generators outside the graph optimiser's integer tables (harness/c19_more.py) -----------
     more = {"softmax_exp": c19_more.softmax_exp_stream(ck, np), "lut_ops": c19_more.lut_op_streams(ck, np),
-            "siblings": c19_more.sibling_stream(ck, np)}
+            "siblings": c19_more.sibling_stream(ck, np),
+            "quantize_pipeline": c19_more.quantize_fold_pipeline_stream(ck, np)}
     n_eval += sum(m["evaluations"] for m in more.values())
     n_tab_nontrivial = len({(c["kind"], c.get("model_req")) for c in tab_cases if c.get("model_req")})
     ck.sample({"request": reqs[0], "lean(model | reference)": outs[0]})
